@@ -1333,6 +1333,15 @@ func (h *Hashgraph) ProcessSigPool() error {
 	h.logger.WithField("pending_signatures", h.PendingSignatures.Len()).Debug("ProcessSigPool()")
 
 	for _, bs := range h.PendingSignatures.Items() {
+		// A signature can only concern a block that this node has produced or
+		// adopted. A persistent store may still hold, above the last block,
+		// blocks from before a fast-forward to an earlier anchor; fetching and
+		// saving one of those again would move the last block index forward and
+		// the next blocks would skip the indexes in between.
+		if bs.Index > h.Store.LastBlockIndex() {
+			continue
+		}
+
 		block, err := h.Store.GetBlock(bs.Index)
 		if err != nil {
 			h.logger.WithFields(logrus.Fields{
